@@ -49,9 +49,33 @@ def gen_flows(rng, tier):
             cfg.update(extra)
             if name == "realnvp-default" and dims == 3:
                 cfg["mask"] = [1, -1, 1]
-            cases.append({"name": name, "seed": rng.randrange(1 << 30), "dims": dims, "state": state, "flow_config": cfg,
-                          "reset_permutations": rng.random() < 0.5, "n_points": 6 if tier == "quick" else 12,
-                          "epochs": 30 if tier == "quick" else 80})
+            case = {"name": name, "seed": rng.randrange(1 << 30), "dims": dims, "state": state, "flow_config": cfg,
+                    "n_points": 6 if tier == "quick" else 12, "epochs": 30 if tier == "quick" else 80}
+            # the state of a flow is the result of a HISTORY of public calls (weights, caches of the linear transforms,
+            # batch-norm statistics, train / eval mode): a random history ending in the named state
+            pre = [op for op in ("fwd", "logp", "inv", "inv_z") if rng.random() < 0.4]
+            rng.shuffle(pre)
+            if state == "trained":
+                case["ops"] = ["train"] + (pre if rng.random() < 0.5 else [])
+            elif state == "reset":
+                case["ops"] = ["train"] + pre + [rng.choice(["reset_w", "reset_w", "reset_p", "reset_wp"])] \
+                    + ([rng.choice(["fwd", "inv"])] if rng.random() < 0.3 else [])
+            else:
+                case["ops"] = pre if rng.random() < 0.3 else []
+            if rng.random() < (0.25 if tier == "quick" else 0.5):
+                case["n_big"] = rng.choice([1, 3, 1000, 50001, 65537])
+            cases.append(case)
+    # every reset kind after every kind of evaluation history, for the two default architectures (systematic, small)
+    for name in ("realnvp-default", "nsf-lu-bn", "maf"):
+        for pre in (["fwd"], ["inv"], ["fwd", "inv"], ["logp", "inv_z"]):
+            for rs in (("reset_w", "reset_p") if tier == "quick" else ("reset_w", "reset_p", "reset_wp")):
+                if tier == "quick" and name != "realnvp-default" and (len(pre) > 1 or rs == "reset_p"):
+                    continue
+                cfg = dict(base)
+                cfg.update(dict(variants)[name])
+                cases.append({"name": name, "seed": rng.randrange(1 << 30), "dims": rng.choice([2, 3]), "state": "reset",
+                              "ops": ["train"] + pre + [rs], "flow_config": cfg, "n_points": 6,
+                              "epochs": 30 if tier == "quick" else 80})
     cfg = dict(base)
     cfg.update({"ftype": "realnvp", "linear_transform": "svd"})
     cases.append({"name": "realnvp-svd-lowdim", "seed": rng.randrange(1 << 30), "dims": rng.choice([2, 3, 4]), "state": "fresh",
@@ -85,8 +109,12 @@ def gen_ins(rng, tier):
     out = []
     for reparam in ("logit", None):
         for n_flows in ((1, 2) if tier == "quick" else (1, 2, 3)):
+            # batch sizes over several orders of magnitude, around powers of two and of ten (chunked evaluation boundaries)
+            bigs = [rng.choice([1, 2, 999, 4097, 10001]), rng.choice([50000, 50001, 65537, 100003, 131073])]
+            if tier != "quick":
+                bigs += rng.sample([3, 1000, 32769, 70000, 100000, 150001], 3)
             out.append({"seed": rng.randrange(1 << 30), "flow_config": {"n_blocks": 2, "n_neurons": 8}, "reparam": reparam,
-                        "n_flows": n_flows, "n": 10, "reset_flow": rng.random() < 0.7})
+                        "n_flows": n_flows, "n": 10, "reset_flow": rng.random() < 0.7, "n_bigs": sorted(bigs)})
     return out
 
 
@@ -154,6 +182,8 @@ def run(chk):
             chk.evaluations += 1
             label = c.get("name") or c.get("latent") or f"ins-{c.get('reparam')}-{c.get('n_flows')}"
             chk.count(f"{tag}:{label}:{c.get('state', '')}")
+            if c.get("ops") is not None:
+                chk.count("history:" + ">".join(c["ops"]) if c["ops"] else "history:(none)")
             if "config_error" in r:
                 chk.count(f"{tag}:rejected-configuration")
                 chk.notes.append(f"{tag} {label}: {r['config_error']}")
